@@ -467,6 +467,28 @@ Proof.
     injection H1 as _ <-. reflexivity.
 Qed.
 
+Theorem write_header_frame o m text m' :
+  write o m = WOk text m' ->
+  (Forall2 cframe (s_items (l_curves (m_las m))) (s_items (l_curves (m_las m'))) /\
+   tl (s_items (l_curves (m_las m'))) = tl (s_items (l_curves (m_las m)))) /\
+  l_params (m_las m') = map_section (stdf fzero) (l_params (m_las m)) /\
+  Forall2 (wframe_n fzero (s_transforms (l_well (m_las m))))
+          (s_items (l_well (m_las m))) (s_items (l_well (m_las m'))) /\
+  match wo_wrap o with
+  | None => l_version (m_las m') = l_version (m_las m)
+  | Some b => l_version (m_las m') =
+              mksect (set_item (s_transforms (l_version (m_las m))) k_wrap (wrap_item b)
+                               (s_items (l_version (m_las m))))
+                     (s_transforms (l_version (m_las m)))
+  end.
+Proof.
+  intro H.
+  destruct (write_curves_frame _ _ _ _ H) as (A & B & _).
+  destruct (write_well_frame _ _ _ _ H) as (C & _).
+  split; [split; assumption|]. split; [exact (write_params_frame _ _ _ _ H)|].
+  split; [exact C|exact (write_version_frame _ _ _ _ H)].
+Qed.
+
 (* the in-memory VERS item: untouched, whatever version= says *)
 Theorem write_vers_untouched o m text m' :
   write o m = WOk text m' ->
